@@ -115,6 +115,35 @@ theorem filterMap_id_nil_iff (labels : List (Option ℕ)) :
     | none => simp [ih]
     | some n => simp
 
+theorem choice_empty {α} (l : List α) (u : ℕ) (h : l.length = 0) : choice l u = .error .emptyChoice := by
+  unfold choice
+  rw [if_pos h]
+  rfl
+
+theorem subtreeStep_nil (labels : List (Option ℕ)) (u : ℕ) (h : (labels.filterMap id).length = 0) :
+    subtreeStep labels u = .ok .fallback := by
+  show (if (labels.filterMap id).length = 0 then _ else _) = _
+  rw [if_pos h]
+  rfl
+
+theorem subtreeStep_node (labels : List (Option ℕ)) (u a : ℕ) (h : (labels.filterMap id).length ≠ 0)
+    (ha : choice (labels.filterMap id) u = .ok a) : subtreeStep labels u = .ok (.node a) := by
+  show (if (labels.filterMap id).length = 0 then _ else _) = _
+  rw [if_neg h, ha]
+  rfl
+
+theorem subtreeStepOld_nil (labels : List (Option ℕ)) (u : ℕ) (h : (labels.filterMap id).length = 0) :
+    subtreeStepOld labels u = .error .emptyChoice := by
+  unfold subtreeStepOld
+  rw [choice_empty _ u h]
+  rfl
+
+theorem subtreeStepOld_node (labels : List (Option ℕ)) (u a : ℕ)
+    (ha : choice (labels.filterMap id) u = .ok a) : subtreeStepOld labels u = .ok (.node a) := by
+  unfold subtreeStepOld
+  rw [ha]
+  rfl
+
 /-! ### weights -/
 
 theorem total_pos (ws : List ℚ) (hne : ws ≠ []) (hp : ∀ w ∈ ws, 0 < w) : 0 < total ws := by
